@@ -160,7 +160,7 @@ func (w *mastWorld) walk(out *tw, c *mast.Cursor, back bool) {
 }
 
 func runMast(seed int64, n int, dir string) error {
-	g := &gen{rand.New(rand.NewSource(seed))}
+	g := &gen{r: rand.New(rand.NewSource(seed))}
 	cf, err := os.Create(dir + "/cases.txt")
 	if err != nil {
 		return err
